@@ -735,9 +735,9 @@ func (it *Interp) RunJob(name string, fn *ssa.Function, params map[string]int, o
 					j.Witness = m
 				}
 			}
-			if it.Concrete != nil {
-				j.WitnessObs = p.Observes
-			}
+		}
+		if it.Concrete != nil {
+			j.WitnessObs = p.Observes
 		}
 		it.journalOn = false
 		it.rollback()
